@@ -86,6 +86,27 @@ def toy_sleepers():
   return woke
 
 
+def toy_own_wakeup():
+  """regression: a thread whose sleep makes it the only one runnable advances the clock itself and
+  must wake at ITS instant, not at the next sleeper's (a 0.01 s ticker next to a 0.1 s ticker)"""
+  s = ds.Sched(seed=5, policy='pct', pct_depth=3, pct_len=50)
+  woke = []
+
+  def ticker(d, n, tag):
+    for _ in range(n):
+      ds.STime.sleep(d)
+      woke.append((tag, round(s.clock, 9)))
+
+  def body(s):
+    ts = [ds.SThread(target=ticker, args=(0.1, 3, 'slow')), ds.SThread(target=ticker, args=(0.01, 4, 'fast'))]
+    for t in ts:
+      t.start()
+    for t in ts:
+      t.join()
+  _run(s, body)
+  return woke
+
+
 def toy_deadlock():
   s = ds.Sched(seed=3, policy='script')
   s.script = [1, 1, 1, 1, 1, 1, 1, 1]
@@ -201,6 +222,9 @@ def main(quick=True):
   woke = toy_sleepers()
   print('detsched selftest: sleepers woke', woke)
   ok &= [w[0] for w in woke] == ['a', 'b', 'c'] and all(abs(c - e) < 1e-9 for (_, c), e in zip(woke, (0.1, 0.2, 0.3)))
+  own = toy_own_wakeup()
+  print('detsched selftest: tickers woke', own)
+  ok &= [c for t, c in own if t == 'fast'] == [0.01, 0.02, 0.03, 0.04] and [c for t, c in own if t == 'slow'] == [0.1, 0.2, 0.3]
   d = toy_deadlock()
   print('detsched selftest: two-lock inversion ->', d)
   ok &= d == 'deadlock'
